@@ -27,8 +27,8 @@ ASSUMPTIONS = ["well-formed lanelets: simple polygons (generator guarantees it, 
                "get_obstacles member-wise", "get_obstacles needs obstacles that have an occupancy at the queried time",
                "file routes use coordinates rounded to 4 decimals (exactly representable at the writer precision)"]
 
-ROUTES = ["list", "add", "scenario", "scenario-network", "deepcopy", "pickle", "from-network", "batch-removal", "xml",
-          "pb"]
+ROUTES = ["list", "add", "scenario", "scenario-list", "scenario-mixed-list", "scenario-network", "deepcopy", "pickle",
+          "from-network", "batch-removal", "xml", "pb"]
 
 
 def round_net(net, nd=4):
@@ -75,6 +75,18 @@ def build_by_route(net, route):
     if route == "scenario":
         for l in net["lanelets"]:
             sc.add_objects(gs.build_lanelet(l))
+        return sc.lanelet_network
+    if route in ("scenario-list", "scenario-mixed-list"):
+        # the lanelets arrive in one add_objects call: as a list of lanelets, or in a list that also holds other objects
+        # (here it ends with a static obstacle far away from the network)
+        from commonroad.geometry.shape import Rectangle
+        from commonroad.scenario.obstacle import ObstacleType, StaticObstacle
+        from commonroad.scenario.state import InitialState
+        objs = [gs.build_lanelet(l) for l in net["lanelets"]]
+        if route == "scenario-mixed-list":
+            objs.append(StaticObstacle(987654, ObstacleType.PARKED_VEHICLE, Rectangle(2.0, 1.0), InitialState(
+                time_step=0, position=np.array([1.0e6, 1.0e6]), orientation=0.0)))
+        sc.add_objects(objs)
         return sc.lanelet_network
     if route == "scenario-network":
         sc.add_objects(LaneletNetwork.create_from_lanelet_list([gs.build_lanelet(l) for l in net["lanelets"]]))
@@ -180,7 +192,7 @@ def require_simple(net, ctx):
 # ------------------------------------------------------------------------------------------------ position lookup
 @st.composite
 def s_position(draw, tier=None):
-    net = draw(gs.network_recipe(max_lanelets=6))
+    net = gs.maybe_twin(draw, draw(gs.network_recipe(max_lanelets=6)))
     return {"net": net, "route": draw(st.sampled_from(ROUTES)),
             "points": draw(st.lists(point_spec(), min_size=1, max_size=8))}
 
@@ -253,7 +265,7 @@ def place_query(shape, p):
 
 @st.composite
 def s_shape_lookup(draw, tier=None):
-    net = draw(gs.network_recipe(max_lanelets=6))
+    net = gs.maybe_twin(draw, draw(gs.network_recipe(max_lanelets=6)))
     return {"net": net, "route": draw(st.sampled_from(ROUTES)),
             "queries": draw(st.lists(st.tuples(point_spec(), query_shape()).map(list), min_size=1, max_size=5))}
 
@@ -361,7 +373,7 @@ def check_containment(r, ctx):
 # ------------------------------------------------------------------------------------------------ obstacle mapping
 @st.composite
 def s_mapping(draw, tier=None):
-    net = draw(gs.network_recipe(max_lanelets=5))
+    net = gs.maybe_twin(draw, draw(gs.network_recipe(max_lanelets=5)))
     obs = []
     for i in range(draw(st.integers(1, 4))):
         spec = draw(point_spec())
